@@ -50,7 +50,8 @@ impl Prop for C27 {
             }
             let items: Vec<u64> = (0..k).map(|_| if rng.chance(5, 6) { 1 } else { 0 }).collect();
             let ka = *rng.pick(&[1u64, 2, 3, 5]);
-            let life = 3 * ka + rng.below(20) + 1;
+            // sometimes a lifetime so short that starved subscriptions expire within the case
+            let (ka, life) = if rng.chance(1, 6) { (1, 3 + rng.below(2)) } else { (ka, 3 * ka + rng.below(20) + 1) };
             let l = |v: &Vec<u64>| format!("[{}]", v.iter().map(|x| x.to_string()).collect::<Vec<_>>().join(","));
             out.push(format!("reset {} {} {} {} {}", l(&ids), l(&prios), l(&items), ka, life));
             let rounds = rng.range(3, 14);
